@@ -650,7 +650,8 @@ class SimulationBuilder:
         if value is None:
             return
 
-        array = self.get_input(variable.name, str(periods.period(period_str)))
+        buffer_key = self.get_buffer_key(variable, period_str)
+        array = self.get_input(variable.name, buffer_key)
 
         if array is None:
             array_size = self.get_count(entity.plural)
@@ -666,7 +667,19 @@ class SimulationBuilder:
         except ValueError as error:
             raise errors.SituationParsingError(path_in_json, *error.args)
 
-        self.input_buffer[variable.name][str(periods.period(period_str))] = array
+        self.input_buffer[variable.name][buffer_key] = array
+
+    def get_buffer_key(self, variable, period_str) -> str:
+        """Key of the input buffer for a value of ``variable`` given for ``period_str``.
+
+        A variable defined for eternity holds a single value, whatever the
+        period it is given for: all its inputs join the entry buffered first.
+        """
+        buffer_key = str(periods.period(period_str))
+        buffer = self.input_buffer.get(variable.name)
+        if buffer and variable.definition_period == periods.DateUnit.ETERNITY:
+            return next(iter(buffer))
+        return buffer_key
 
     def finalize_variables_init(self, population) -> None:
         # Due to set_input mechanism, we must bufferize all inputs, then actually set them,
@@ -816,11 +829,12 @@ class SimulationBuilder:
             # Distribute values along axes
             for axis in parallel_axes:
                 axis_index = axis.get("index", 0)
-                axis_period = str(
-                    periods.period(axis.get("period", self.default_period)),
-                )
                 axis_name = axis["name"]
                 variable = axis_entity.get_variable(axis_name)
+                axis_period = self.get_buffer_key(
+                    variable,
+                    axis.get("period", self.default_period),
+                )
                 array = self.get_input(axis_name, str(axis_period))
                 if array is None:
                     array = variable.default_array(axis_count * axis_entity_step_size)
@@ -850,11 +864,12 @@ class SimulationBuilder:
                 # Distribute values along the grid
                 for axis in parallel_axes:
                     axis_index = axis.get("index", 0)
-                    axis_period = str(
-                        periods.period(axis.get("period", self.default_period)),
-                    )
                     axis_name = axis["name"]
                     variable = axis_entity.get_variable(axis_name, check_existence=True)
+                    axis_period = self.get_buffer_key(
+                        variable,
+                        axis.get("period", self.default_period),
+                    )
                     array = self.get_input(axis_name, str(axis_period))
                     if array is None:
                         array = variable.default_array(
